@@ -98,3 +98,27 @@ fn c03_len_arith_longest_name() {
     std::mem::forget(b);
     std::mem::forget(a);
 }
+
+/// Re-serialising a stored message whose header declares the largest length the 16-bit field can hold
+/// (what a parser returns for a 64 KiB message behind a storage header): the capacity arithmetic of
+/// Message::as_bytes (declared length + 16 bytes storage header) must not overflow. Only the declared
+/// length is at the boundary; the payload vector is kept short so that the copy loops stay small.
+#[kani::proof]
+#[kani::unwind(20)]
+fn c03_message_as_bytes_largest_declared_length() {
+    use dlt_core::dlt::*;
+    let m = Message {
+        storage_header: Some(StorageHeader { timestamp: DltTimeStamp { seconds: kani::any(), microseconds: kani::any() }, ecu_id: String::from("Ec7") }),
+        header: StandardHeader { version: 1, endianness: Endianness::Little, has_extended_header: false, message_counter: kani::any(), ecu_id: None,
+                                 session_id: None, timestamp: None, payload_length: 65531 },
+        extended_header: None,
+        payload: PayloadContent::NonVerbose(kani::any(), Vec::new()),
+    };
+    assert!(m.byte_len() == 65535);
+    let b = m.as_bytes();
+    assert!(b.len() == 16 + 4 + 4);
+    assert!(b[0] == 0x44 && b[16] == 0x20 && b[18] == 0xFF && b[19] == 0xFF);
+    kani::cover!(true, "serialised");
+    std::mem::forget(b);
+    std::mem::forget(m);
+}
